@@ -849,4 +849,25 @@ P('C17-I', 'C17', 'C17.R3'); P('C17-J', 'C17', 'C17.R2')
 P('C18-I', 'C18', 'C18.R1'); P('C18-J', 'C16', 'C16.R2')
 P('C19-I', 'C04', 'C04.R3'); P('C19-J', 'C19', 'C19.R1')
 P('C20-I', 'C20', 'C20.R1'); P('C20-J', 'C20', 'C20.R1')
+# round 7 (feature additions that are correct in isolation)
+P('C01-K', 'C01', 'C01.R8'); P('C01-L', 'C01', 'C01.R7')
+P('C02-K', 'C02', 'C02.R5'); P('C02-L', 'C01', 'C01.R8')
+P('C03-K', 'C03', 'C03.R3'); P('C03-L', 'C03', 'C03.R5')
+P('C04-K', 'C04', 'C04.R1'); P('C04-L', 'C04', 'C04.R1')
+P('C05-K', 'C05', 'C05.R1'); P('C05-L', 'C01', 'C01.R5')
+P('C06-K', 'C06', 'C06.R2'); P('C06-L', 'C11', 'C11.R2')
+P('C07-K', 'C07', 'C07.R2'); P('C07-L', 'C02', 'C02.R3')
+P('C08-K', 'C08', 'C08.R2'); P('C08-L', 'C08', 'C08.R3')
+P('C09-K', 'C09', 'C09.R1'); P('C09-L', 'C01', 'C01.R8')
+P('C10-K', 'C10', 'C10.R6'); P('C10-L', 'C10', 'C10.R3')
+P('C11-K', 'C11', 'C11.R2'); P('C11-L', 'C11', 'C11.R1')
+P('C12-K', 'C12', 'C12.R1'); P('C12-L', 'C12', 'C12.R2')
+P('C13-K', 'C13', 'C13.R1'); P('C13-L', 'C07', 'C07.R7')
+P('C14-K', 'C07', 'C07.R2'); P('C14-L', 'C14', 'C14.R5')
+P('C15-K', 'C15', 'C15.R1'); P('C15-L', 'C15', 'C15.R6')
+P('C16-K', 'C16', 'C16.R5'); P('C16-L', 'C16', 'C16.R1')
+P('C17-K', 'C17', 'C17.R7'); P('C17-L', 'C17', 'C17.R5')
+P('C18-K', 'C11', 'C11.R2'); P('C18-L', 'C18', 'C18.R3')
+P('C19-K', 'C19', 'C19.R1'); P('C19-L', 'C07', 'C07.R7')
+P('C20-K', 'C20', 'C20.R1'); P('C20-L', 'C20', 'C20.R2')
 B('c16-finally-guarded-delete', 'C16', SQP, "            return ast.eval(state)\n", "            try:\n                return ast.eval(state)\n            finally:\n                if '__tmp__' in scoped_names.scopes[-1]:\n                    del scoped_names.scopes[-1]['__tmp__']\n")
